@@ -73,6 +73,9 @@ func (e *Engine) translate(u *Unit) {
 		x.selfFn = intLit(int64(e.fnID(fn)))
 		x.unitFType = u.FType
 	}
+	if u.Own != nil && u.Own.Attrs["assumesafe"] {
+		x.assumeSafe = true
+	}
 	var args []Val
 	for _, p := range fn.Params {
 		v := x.freshVal(p.Type(), "p_"+p.Name())
